@@ -297,6 +297,30 @@ def huge_chunk_stream(rng, pid):
     return cases
 
 
+def huge_then_skip_stream(rng, pid, clones=False):
+    """a drain-everything request (`next_chunk` / `for_each` with a chunk size near usize::MAX, keeping the cumulative requested
+    count below 2^64) followed by `skip_to_end`, then pulls, queries, clones and the remainder: the counter sits within `len` of
+    the largest word when the skip arrives"""
+    cases = []
+    i = 0
+    for kind in ("slice", "vec", "array", "range", "vecref"):
+        for L in (2, 5, 8):
+            for pre in (0, 1, 2):
+                for huge in ("chunk %d all" % (MAXW - pre), "chunk %d 1" % (MAXW - pre - 1), "foreach %d" % (MAXW - pre)):
+                    for tail in (["skip", "hasmore", "next", "len", "next"], ["skip", "skip", "next", "chunk 2 all", "hasmore"]):
+                        c = make_source(rng, "%s-hs%d" % (pid, i), kind, L)
+                        prog = ["next"] * pre + [huge] + list(tail)
+                        if clones and kind in ("slice", "range", "vecref"):
+                            prog += ["clone 1", "@1 next", "@1 hasmore", "@1 chunk 2 all"]
+                        c.threads = [prog]
+                        c.owner = "intoseq all" if kind != "range" or L < 100 else "drop"
+                        if kind == "slice" and i % 3 == 1:
+                            c.adapt = "cloned" if i % 2 else "copied"
+                        cases.append(c)
+                        i += 1
+    return cases
+
+
 def liar_stream(rng, pid):
     """wrapped iterators whose exact size hint is not their length (size_hint must not be trusted for correctness):
     pulls whose chunks end exactly at, just before and just after the claimed length"""
@@ -538,7 +562,7 @@ def stream_for0(pid, tier, seed):
                 for _ in range(rng.randint(2, 6) + min(k, 6)):
                     t.append(rng.choice(["next", "next", "chunk 2 all", "hasmore", "len"]))
             cases.append(c)
-        return cases
+        return cases + huge_then_skip_stream(rng, pid)
     if pid == "C07":
         prof = dict(kinds=["iter", "iterref"], skip=True, query=True)
         cases = defects + pulls_stream(rng, tier, pid, prof=prof, n_random=1500 if not big else 60000, exh=False)
@@ -596,11 +620,11 @@ def stream_for0(pid, tier, seed):
     if pid == "C10":
         return defects + pulls_stream(rng, tier, pid, prof=dict(skip=True, owners=["intoseq all", "intoseq 1", "intoseq 2", "intoseq 0"]), exh=False, n_random=2000 if not big else 80000) + liar_stream(rng, pid) + zst_stream(rng, pid) + \
             [c for c in boundary_stream(rng, tier) if c.kind == "range" and c.owner != "drop"][::2] + next_then_nth_stream(rng, pid) + \
-            spare_stream(rng, pid) + pod_stream(rng, pid)
+            spare_stream(rng, pid) + pod_stream(rng, pid) + huge_then_skip_stream(rng, pid)
     if pid == "C11":
         return defects + pulls_stream(rng, tier, pid, prof=dict(skip=True, query=True, drain=0.3), n_random=2000 if not big else 80000, exh=False) + \
             exhaustive("C11-x2", small_bases(rng, [[["next", "len"], ["chunk 2 all", "hasmore"]], [["hasmore", "next"], ["skip", "len"]]], ["slice", "vec", "range", "iter"]), 2, 8 if not big else 11) + \
-            inflight_stream(rng, pid, tier) + liar_stream(rng, pid)
+            inflight_stream(rng, pid, tier) + liar_stream(rng, pid) + huge_then_skip_stream(rng, pid)
     if pid == "C12":
         cases = defects[:0]
         for i in range(1500 if not big else 60000):
@@ -665,7 +689,7 @@ def stream_for0(pid, tier, seed):
         cases += droppanic_stream(rng, tier, pid) + wrapper_droppanic_stream(rng, pid)
         return cases
     if pid == "C19":
-        return multi_stream(rng, tier)
+        return multi_stream(rng, tier) + [c for c in huge_then_skip_stream(rng, pid, clones=True) if c.kind in ("slice", "range", "vecref") and c.adapt == "none"]
     return defects + pulls_stream(rng, tier, pid)
 
 
